@@ -403,18 +403,7 @@ def check_bits(ck, r, seen):
             continue
         seen.add(src)
         want = {"t": "int", "v": str(word(r[op]))}
-        if op in ("bit_shift_left", "bit_shift_right") and n >= 32:
-            # a count >= 32: the result must be a 32-bit word; which word is
-            # not decided by the documentation (drift when not 0)
-            ck.nchecks += 1
-            o = ck.impl.call(src)
-            if not (o[0] == "val" and isinstance(o[1], int) and 0 <= o[1] < T32):
-                ck.run.violation(src, f"bitwise: result is not a 32-bit word: {show(o)}",
-                                 {"kind": "word", "src": src})
-            elif not fits(o, want)[0]:
-                ck.run.drift("shift-count>=32", {"src": src, "got": show(o), "reference": want})
-        else:
-            ck.expect(src, want, "bitwise")
+        ck.expect(src, want, "bitwise")     # shift counts >= 32 included: the mathematical result is the word 0
 
 
 class _Collect:
@@ -829,8 +818,7 @@ def run(run):
     run.assumptions += [
         "bitwise domain: words 0..2^32-1, results unsigned 32-bit words (doc: bit_not(0) ==> 4294967295); "
         "negative or wider arguments are drift probes only",
-        "shift counts >= 32: the result must be a 32-bit word (violation otherwise); a word other than the "
-        "mathematical 0 is drift; rotations by n are rotations by n mod 32",
+        "shift counts >= 32 shift every bit out: the result must be the word 0; rotations by n are rotations by n mod 32",
         "pow is compared for int base and int exponent >= 0 only; gcd/lcm are the non-negative ones, "
         "gcd(0,0) = 0, lcm(x,0) = 0",
         "mean/median/median_low/median_high/min/max: order dependence is the stated violation; a value that "
